@@ -18,6 +18,7 @@ META = {
     "not_decided": "round-trip equality of all trees and numbers (numeric formatting is C10/C11's concern)",
     "assumptions": [],
 }
+META["explanation"] += " " + 'X-stringify additionally: the member write of the object/array writers is guarded by !isUndefined() (and a null test) only -- nothing else is skipped.'
 
 KIND_WRITERS = {
     "Object": ("call", "stringifyObject"), "Array": ("call", "stringifyArray"), "String": ("call", "Escape"),
